@@ -180,7 +180,7 @@ pub fn c15(cfg: &Cfg, rep: &mut Report) {
     };
     let dir = tmp_dir(cfg);
     let wrapper: Vec<String> = cfg.get("wrapper").map(|w| w.split(' ').map(|s| s.to_string()).collect()).unwrap_or_default();
-    if cfg.shard == 0 && !cfg.flag("only_malformed") {
+    if cfg.shard == 0 && !cfg.flag("only_malformed") && cfg.get("only_flags").is_none() {
         c15_known_probes(cfg, rep, &cli, &dir);
     }
     for i in 0..cfg.cases {
@@ -335,6 +335,19 @@ fn c15_run(cfg: &Cfg, rep: &mut Report, case_seed: u64, mut case: SmallCase, cli
         }
         if wide && !flags.contains(&"--twoval") && rng.chance(3, 4) {
             flags.push("--twoval");
+        }
+        // a leg of another property's check: only that property's observation points at the command line
+        // (`--only_flags grd,com`: a non-empty random subset of the named flags)
+        if let Some(only) = cfg.get("only_flags") {
+            let names: Vec<String> = only.split(',').map(|f| format!("--{}", f)).collect();
+            let allowed: Vec<&str> = SEM_FLAGS.iter().copied().filter(|f| names.iter().any(|n| n == f) && !(no_complete && *f == "--com")).collect();
+            if allowed.is_empty() {
+                continue;
+            }
+            flags = allowed.iter().copied().filter(|_| rng.chance(1, 2)).collect();
+            if flags.is_empty() {
+                flags.push(*rng.pick(&allowed));
+            }
         }
         let heu: Option<&str> = if rng.chance(1, 2) { Some(*rng.pick(&HEUS)) } else { None };
         let mut args: Vec<String> = vec!["--lib".into(), lib.into()];
@@ -545,7 +558,9 @@ fn c15_run(cfg: &Cfg, rep: &mut Report, case_seed: u64, mut case: SmallCase, cli
         rep.nontrivial.insert(hash_str(&case.g.structure_key()));
     }
     // malformed inputs derived from this case
-    c15_malformed(rep, &case, cli, dir, &mut rng, case_seed);
+    if cfg.get("only_flags").is_none() {
+        c15_malformed(rep, &case, cli, dir, &mut rng, case_seed);
+    }
     let _ = std::fs::remove_file(&file);
 }
 
